@@ -217,6 +217,9 @@ func sameBehaviour(c *fw.Case, a, b *jsonschema.Schema, docText string, what str
 }
 
 func (p c05) Run(c *fw.Case) {
+	if c.Idx%6 == 5 {
+		failedCalls(c) // call history: failed calls before the case must leave nothing behind
+	}
 	if c.Idx%2 == 0 {
 		p.structTrip(c)
 	} else {
@@ -342,7 +345,19 @@ func (c05) docTrip(c *fw.Case) {
 	if m, ok := doc.(map[string]any); ok && draft == gen.D7 {
 		m["$schema"] = gen.Schema7URI
 	}
+	// documents with an empty-but-present enum are the pinned known finding KF-C05-1 (Marshal drops it): not generated here
+	doc = mapSchemas(doc, nil, func(n any, _ []string) any {
+		if m, ok := n.(map[string]any); ok {
+			if e, ok := m["enum"].([]any); ok && len(e) == 0 {
+				delete(m, "enum")
+			}
+		}
+		return n
+	})
 	text := gen.Text(doc)
+	if r.IntN(4) == 0 {
+		text = gen.TextShuffled(r, doc, r.IntN(3) > 0) // another textual layout of the same document
+	}
 	s, err, ok := unmarshalSchema(c, []byte(text))
 	if !ok {
 		return
